@@ -68,7 +68,7 @@ Lemma pcsd_pairs_val sd nrm N n Fs X a b f :
   if (b <=? a)%nat then pcsd_kernel sd nrm N n Fs (X a) (X b) f else c0.
 Proof.
   unfold pcsd_pairs, pcsd_kernel, nrmf. destruct (b <=? a)%nat; [|reflexivity]. cbv zeta.
-  destruct nrm, sd; cbv beta; try rewrite assemble_c_val; unfold asmf; cring.
+  destruct nrm, sd; cbv beta; try rewrite assemble_c_val; rewrite cmulf_cmul; unfold asmf; cring.
 Qed.
 
 (* ENTRY FORMULA: every entry of the completed matrix is the (scaled) product of the two spectra *)
@@ -101,10 +101,10 @@ Theorem pcsd_diag_is_periodogram sd nrm N n Fs X i f :
   pcsd sd nrm N n Fs X i i f =c= ofQ (periodogram sd nrm N n Fs (X i) f).
 Proof.
   rewrite pcsd_entry. unfold pcsd_kernel, periodogram, nrmf.
-  destruct (X i f) as [xr xi] eqn:EX.
-  destruct nrm, sd; cbv beta zeta; try rewrite assemble_q_val; rewrite ?EX;
+  destruct nrm, sd; cbv beta zeta; try rewrite assemble_q_val; rewrite sq_cnorm2;
+  destruct (X i f) as [xr xi];
   try (generalize (asmf OneSided N f); intros A);
-  split; unfold cscale, cmul, cconj, ofQ, sq, re, im; simpl; unfold Qdiv; ring.
+  split; unfold cscale, cmul, cconj, ofQ, cnorm2, re, im; simpl; unfold Qdiv; ring.
 Qed.
 
 (* ------------------------------------------------------------------ Gram matrices are PSD *)
@@ -176,7 +176,7 @@ Qed.
 (* ------------------------------------------------------------------ multi_taper_csd *)
 Lemma mtm_sum_conj K wx wy tx ty f :
   cconj (mtm_sum K wy wx ty tx f) =c= mtm_sum K wx wy tx ty f.
-Proof. unfold mtm_sum. rewrite !csumr_csumn, csumn_conj. apply csumn_ext; intros k _. cring. Qed.
+Proof. unfold mtm_sum. rewrite !csumr_csumn, csumn_conj. apply csumn_ext; intros k _. rewrite !cmulf_cmul. cring. Qed.
 
 Definition mtcsd_kernel (sd : sides) (N K : nat) (Fs : Q) (wi wj : nat -> nat -> Q) (di dj : nat -> Q)
            (Yi Yj : nat -> sig) (f : nat) : C :=
@@ -206,7 +206,7 @@ Lemma mtm_sum_ext K wx wy tx ty wx' wy' tx' ty' f :
   (forall k, (k < K)%nat -> wx k f == wx' k f /\ wy k f == wy' k f /\ tx k f =c= tx' k f /\ ty k f =c= ty' k f) ->
   mtm_sum K wx wy tx ty f =c= mtm_sum K wx' wy' tx' ty' f.
 Proof. intros H. unfold mtm_sum. rewrite !csumr_csumn. apply csumn_ext; intros k Hk.
-  destruct (H k Hk) as (A & B & C0 & D). rewrite A, B, C0, D. reflexivity. Qed.
+  destruct (H k Hk) as (A & B & C0 & D). rewrite !cmulf_cmul. rewrite A, B, C0, D. reflexivity. Qed.
 
 (* entry (i,j) at bin f depends only on the tapered spectra, weights and norms of channels i and j *)
 Theorem mtcsd_entry_local sd N K Fs w d Y w' d' Y' i j i' j' f :
@@ -242,7 +242,7 @@ Proof.
     apply Qlt_le_weak, Qinv_lt_0_compat. assumption.
   - intros i j Hi Hj. rewrite mtcsd_entry. unfold mtcsd_kernel, mtm_sum.
     rewrite csumr_csumn, <- !csumn_scale. apply csumn_ext; intros k _.
-    pose proof (Hd i Hi). pose proof (Hd j Hj).
+    pose proof (Hd i Hi). pose proof (Hd j Hj). rewrite cmulf_cmul.
     split; unfold cscale, cmul, cconj, re, im; simpl; field; split; lra.
 Qed.
 
